@@ -16,8 +16,8 @@ def bounded(tier, seed, fallback_for):
 
 MANIFEST = {
     "category": "exploration",
-    "technique": "bounded stand-in: the statement evaluated on generated program texts through the real lexers and pipeline (contract-based proof of the pipeline functions where listed in evidence)",
-    "text": 'Well-formedness of every reported measurement is evaluated on canonical and malformed texts (bounded).',
-    "note": 'bounded; Pygments assumed',
+    "technique": "contracts on the real pipeline functions discharged by z3/cvc5 (pyvc); bounded stand-in on generated program texts through the real lexers for the whole statement",
+    "text": 'Well-formedness is checked on every generated text (bounded): canonical, malformed, token soups and structured sketches (several functions per line, block-less one-liners, docstrings with U+000C/U+2028) in 7 languages. Discharged for all inputs: scan_file (one measurement per scope in order, span start at the header token, exact span end, name = header name), unfold_scopes (pre-order, lengths add up), _analyze_file (line total = sum of lengths), get_balanced_symbol_token_indices, get_blocks.',
+    "note": 'bounded for the clauses that depend on build_scopes (range well-formedness of scopes is an assumed summary, exercised by the stand-in)',
     "design_ref": "DESIGN.md §6 C05",
 }
